@@ -11,6 +11,7 @@ import PygProofs.Lemmas.WrapLemmas
 import PygProofs.Lemmas.CacheLemmas
 import PygProofs.Lemmas.CacheKeyLemmas
 import PygModel.WrapHist
+import PygModel.Try
 import PygProofs.Lemmas.WrapHistLemmas
 
 namespace Pyg.Props.C18
@@ -139,6 +140,80 @@ theorem try_back_fallback_iff (s : Sig) (body : PDict → Res Val) (p : PDict) (
     (∀ e, evalChain s body rest c = .error e →
       evalChain s body ((.tryBack, p) :: rest) c = .ok (firstArg s c)) := by
   constructor <;> intro x hx <;> simp [evalChain, hx]
+
+/-! ### the `try_*` clause against an independent reading
+
+`tryValueCode` / `tryBackCode` (PygModel/Try.lean) are the statements of `try_value.wrapped` / `try_back.wrapped`
+over an ARBITRARY wrapped function `f : A → Except E V` — no signature, no binding, no chain.  The clause "try_*
+wrappers return their fallback exactly when f raises" is: the wrapped call returns
+`resultOr (f a) fallback = match f a with | ok v => v | error _ => fallback`. -/
+
+/-- **try_value (any `repeat`, `return_value` true): f's result when f returns, the fallback when f raises** -/
+theorem try_value_spec {A E V : Type} (f : A → Except E V) (rep : Nat) (value : V) (a : A) :
+    tryValueCode f rep true value a = .ok (resultOr (f a) value) := by
+  induction rep with
+  | zero => unfold tryValueCode; cases f a <;> rfl
+  | succ n ih => unfold tryValueCode; cases h : f a with
+    | ok v => rfl
+    | error e => simp only [ih, h]
+
+/-- … "exactly when": the fallback is returned iff `f` raises (or returns the fallback itself) -/
+theorem try_value_fallback_iff {A E V : Type} (f : A → Except E V) (rep : Nat) (value : V) (a : A) :
+    tryValueCode f rep true value a = .ok value ↔ (∃ e, f a = .error e) ∨ f a = .ok value := by
+  rw [try_value_spec]
+  cases f a with
+  | ok v => simp [resultOr]
+  | error e => simp [resultOr]
+
+/-- with `return_value = False` nothing is caught in the end: the wrapped call is `f`'s -/
+theorem try_value_no_return_spec {A E V : Type} (f : A → Except E V) (rep : Nat) (value : V) (a : A) :
+    tryValueCode f rep false value a = f a := by
+  induction rep with
+  | zero => unfold tryValueCode; rfl
+  | succ n ih => unfold tryValueCode; cases h : f a with
+    | ok v => rfl
+    | error e => simp only [ih, h]
+
+/-- **try_back: f's result when f returns, the first argument when f raises** -/
+theorem try_back_spec {A E V : Type} (f : A → Except E V) (first : A → V) (a : A) :
+    tryBackCode f first a = .ok (resultOr (f a) (first a)) := by
+  unfold tryBackCode; cases f a <;> rfl
+
+/-- **every preset of the code** (`try_nan`, `try_zero`, `try_none`, `try_true`, `try_false`, `try_list`): f's result,
+else the preset value -/
+theorem try_presets_spec {A E : Type} (f : A → Except E Val) (a : A) :
+    ∀ nv ∈ tryPresets, tryValueCode f 0 true nv.2 a = .ok (resultOr (f a) nv.2) :=
+  fun nv _ => try_value_spec f 0 nv.2 a
+
+/-- the `try_value` layer of a stack IS that code, run on the stack below it … -/
+theorem evalChain_tryValue_eq (s : Sig) (body : PDict → Res Val) (p : PDict) (rest : List (Cls × PDict)) (c : Call) :
+    evalChain s body ((.tryValue, p) :: rest) c =
+      tryValueCode (evalChain s body rest) (repeatOf p)
+        (decide (p.lookup "return_value" ≠ some (.cell (.bool false)))) ((p.lookup "value").getD (.cell .none)) c := by
+  by_cases hp : p.lookup "return_value" = some (.cell (.bool false))
+  · simp only [hp, ne_eq, not_true_eq_false, decide_false, try_value_no_return_spec, evalChain]
+    cases evalChain s body rest c <;> simp
+  · simp only [hp, ne_eq, not_false_eq_true, decide_true, try_value_spec, evalChain, if_false]
+    cases evalChain s body rest c <;> rfl
+
+/-- … and so is the `try_back` layer -/
+theorem evalChain_tryBack_eq (s : Sig) (body : PDict → Res Val) (p : PDict) (rest : List (Cls × PDict)) (c : Call) :
+    evalChain s body ((.tryBack, p) :: rest) c = tryBackCode (evalChain s body rest) (firstArg s) c := by
+  simp only [evalChain, tryBackCode]
+  cases evalChain s body rest c <;> rfl
+
+/-- **try_value in a stack** (`return_value` not False): what the stack below returns, else the fallback -/
+theorem try_value_stack_spec (s : Sig) (body : PDict → Res Val) (p : PDict) (rest : List (Cls × PDict)) (c : Call)
+    (hp : p.lookup "return_value" ≠ some (.cell (.bool false))) :
+    evalChain s body ((.tryValue, p) :: rest) c =
+      .ok (resultOr (evalChain s body rest c) ((p.lookup "value").getD (.cell .none))) := by
+  rw [evalChain_tryValue_eq, decide_eq_true hp, try_value_spec]
+
+/-- non-vacuity: `try_zero(f)` on a raising and on a returning call, `repeat = 2` -/
+example :
+    tryValueCode (fun n : Nat => if n = 0 then Except.error "boom" else Except.ok (10 / n)) 2 true 0 0 = .ok 0 ∧
+    tryValueCode (fun n : Nat => if n = 0 then (Except.error "boom" : Except String Nat) else .ok (10 / n)) 2 true 0 5 = .ok 2 :=
+  ⟨rfl, rfl⟩
 
 /-- `loops` is NOT transparent for a keyword argument called `axis` (finding K4): it is consumed by the decorator
 even when the first argument is not a container, `loop(list)(lambda a, axis=0: (a, axis))(1, axis=5) == (1, 0)`.
